@@ -587,7 +587,7 @@ class Runner:
                 self.cfg_files[text] = p
             return self.cfg_files[text]
 
-    def cli(self, sc, flags, cfg, target):
+    def cli(self, sc, flags, cfg, target, pool=None):
         """Future of (rc, report, stderr, cmd); identical command lines are run once."""
         fl = list(flags)
         if cfg is not None:
@@ -597,7 +597,7 @@ class Runner:
         key = (tuple(fl), target)
         with self.lock:
             if key not in self.cli_cache:
-                self.cli_cache[key] = self.pool.submit(cli_analyze, self.root, fl, target)
+                self.cli_cache[key] = (pool or self.pool).submit(cli_analyze, self.root, fl, target)
                 self.stats["mcp_cli_runs"] += 1
             return self.cli_cache[key]
 
@@ -934,6 +934,9 @@ def run(ck, root, thorough):
     robust += [(t, [P1, 2]) for t in TOOLS]         # arguments that are not an object: every tool must answer an error
     e_fut = R.pool.submit(serve, N, [(t, dict(a, output_mode="full") if "path" in a and isinstance(a.get("path"), str) else a) for t, a, c, l in ecases] + robust, None)
     e_cli = [R.pool.submit(cli_analyze, base, argv, None) for t, a, argv, l in ecases]
+    # histories: sequences of calls on ONE server process across projects with different configurations (harness/c20hist.py)
+    import c20hist
+    hist = c20hist.Section(ck, base, R, stats, violation, thorough)
 
     # ---- 2. decide
     def decide(sc, tool, args, target, mode, call_args, answer, main):
@@ -1024,6 +1027,7 @@ def run(ck, root, thorough):
                       replay_of(plain, tool, args, None, {"answer": answer}))
         elif not isinstance(args, dict) and not (answer.get("is_error") or "rpc_error" in answer):
             violation("MCP %s accepts arguments that are not a JSON object: %s" % (tool, str(answer)[:300]), replay_of(plain, tool, args, None, {"answer": answer}))
+    hist.decide()
     R.pool.shutdown()
     stats["mcp_seconds"] = round(time.time() - t0, 1)
     return stats
